@@ -36,6 +36,8 @@ type Job struct {
 	Cfg     map[string]int64
 	// Obl restricts the obligations that are checked (prefix match); empty = all
 	Obl []string
+	// Contracts overrides the executor's set of callee summaries (comma separated)
+	Contracts string
 	// Hooks
 	Confine bool // C18: ownership checks on stores
 }
@@ -48,6 +50,9 @@ func (j *Job) Label() string {
 	sort.Strings(keys)
 	var sb strings.Builder
 	sb.WriteString(j.Harness)
+	if strings.Contains(j.Contracts, "dec.") {
+		sb.WriteString(" [nat]")
+	}
 	for _, k := range keys {
 		fmt.Fprintf(&sb, " %s=%d", k, j.Cfg[k])
 	}
@@ -55,13 +60,15 @@ func (j *Job) Label() string {
 }
 
 type OblResult struct {
-	Known   string // id of the known-finding predicate the model satisfies
-	ID      string
-	Status  string // proved | violated | unknown
-	Where   string
-	Model   map[string]string
-	Millis  int64
-	Trivial bool
+	PathDesc string
+	Abstract bool   // proved with products abstracted to opaque constants
+	Known    string // id of the known-finding predicate the model satisfies
+	ID       string
+	Status   string // proved | violated | unknown
+	Where    string
+	Model    map[string]string
+	Millis   int64
+	Trivial  bool
 }
 
 type JobResult struct {
@@ -120,6 +127,7 @@ type Path struct {
 	absActive     bool
 	ghost         map[string]Value
 	initPkg       *ssa.Package
+	contracts     map[string]bool
 	known         map[string]*term.Term // known-finding predicates registered on this path
 	fnSeen        map[*ssa.Function]int
 }
@@ -613,6 +621,42 @@ func (p *Path) oblActive(id string) bool {
 	return false
 }
 
+func (p *Path) ensureAbs() {
+	if !p.absActive {
+		p.SA.Reset()
+		for _, q := range p.pc {
+			p.SA.Assert(q)
+		}
+		p.absActive = true
+	}
+}
+
+// refute decides PC and extra: the over-approximation with opaque products
+// first (unsat there is unsat exactly), then the exact encoding.
+func (p *Path) refute(extra ...*term.Term) (term.Result, map[string]*big.Int, map[string]bool, bool) {
+	if p.nonlinear && p.SA != nil && !p.X.NoAbstract {
+		p.ensureAbs()
+		ra, _, _ := p.SA.CheckT(p.X.Timeout, true, false, extra...)
+		if p.SA.Dead() {
+			p.SA.Reset()
+			p.absActive = false
+		} else if ra == term.Unsat {
+			return term.Unsat, nil, nil, true
+		}
+	}
+	r, env, benv := p.S.CheckMode(true, true, extra...)
+	if p.S.Dead() {
+		panic(engineErr{"solver process died (timeout watchdog or crash)"})
+	}
+	if r == term.Unknown && p.nonlinear {
+		// a violation may still be found by exact evaluation of sampled inputs
+		if e2, ok := p.sample(extra...); ok {
+			return term.Sat, e2, map[string]bool{}, false
+		}
+	}
+	return r, env, benv, false
+}
+
 // assert is a proof obligation: PC => c.
 func (p *Path) assert(id string, c *term.Term, where string) {
 	if p.spec > 0 {
@@ -626,10 +670,8 @@ func (p *Path) assert(id string, c *term.Term, where string) {
 	if c.IsTrue() {
 		ob.Status, ob.Trivial = "proved", true
 	} else {
-		r, env, benv := p.S.CheckMode(true, true, p.C.Not(c))
-		if p.S.Dead() {
-			panic(engineErr{"solver process died (timeout watchdog or crash)"})
-		}
+		r, env, benv, abs := p.refute(p.C.Not(c))
+		ob.Abstract = abs
 		switch r {
 		case term.Unsat:
 			ob.Status = "proved"
@@ -664,7 +706,7 @@ func (p *Path) assert(id string, c *term.Term, where string) {
 				}
 				if ob.Known != "" {
 					excl = append(excl, p.C.Not(c))
-					r2, env2, benv2 := p.check(true, excl...)
+					r2, env2, benv2, _ := p.refute(excl...)
 					if r2 == term.Sat {
 						memo2 := map[int]*big.Int{}
 						ob2 := OblResult{ID: id, Where: where, Status: "violated", Model: map[string]string{}}
@@ -681,6 +723,18 @@ func (p *Path) assert(id string, c *term.Term, where string) {
 			}
 		default:
 			ob.Status = "unknown"
+			ob.PathDesc = p.describeTail()
+			if len(p.known) > 0 {
+				// undecided inside a known finding's region? then decide the rest of the path
+				excl := []*term.Term{p.C.Not(c)}
+				for _, kt := range p.known {
+					excl = append(excl, p.C.Not(kt))
+				}
+				if r2, _, _, _ := p.refute(excl...); r2 == term.Unsat {
+					ob.Status = "proved"
+					ob.Where += " (holds outside the registered known-finding predicate; undecided inside it)"
+				}
+			}
 		}
 	}
 	ob.Millis = time.Since(t0).Milliseconds()
@@ -715,6 +769,7 @@ type Exec struct {
 	FeasTimeout       time.Duration
 	NLFeasTimeout     time.Duration
 	MaxUnknownFeas    int
+	NoAbstract        bool
 	SampleTries       int
 	NoMerge           bool
 	Seed              int
@@ -827,6 +882,13 @@ func (x *Exec) runPath(it workItem, sess, sessA *term.Session, res *JobResult, f
 	if it.job.Confine {
 		p.enableConfine()
 	}
+	p.contracts = x.Contracts
+	if it.job.Contracts != "" {
+		p.contracts = map[string]bool{}
+		for _, c := range strings.Split(it.job.Contracts, ",") {
+			p.contracts[c] = true
+		}
+	}
 	completed := false
 	func() {
 		defer func() {
@@ -905,6 +967,22 @@ func (p *Path) failNow(id, msg string) {
 	p.res.mu.Unlock()
 }
 
+func (p *Path) describeTail() string {
+	var sb strings.Builder
+	n := len(p.pc)
+	for i := n - 6; i < n; i++ {
+		if i < 0 {
+			continue
+		}
+		s := p.pc[i].String()
+		if len(s) > 200 {
+			s = s[:200] + "..."
+		}
+		sb.WriteString(" ; " + s)
+	}
+	return sb.String()
+}
+
 func (p *Path) describe() string {
 	var sb strings.Builder
 	fmt.Fprintf(&sb, "path: %d decisions, %d pc conjuncts, %d steps", len(p.trail), len(p.pc), p.steps)
@@ -936,7 +1014,7 @@ func (p *Path) witness(id string, c *term.Term) {
 	} else if p.hasModel && p.evalT(c).Sign() != 0 {
 		ob.Status = "wsat"
 	} else {
-		r, _, _ := p.check(false, c)
+		r, _, _ := p.feasible(c)
 		switch r {
 		case term.Sat:
 			ob.Status = "wsat"
@@ -993,34 +1071,85 @@ func (x *Exec) noteContract(name string) {
 	x.seenMu.Unlock()
 }
 
-// iteLeaves returns the constant leaves of an ite tree (nil,false if some leaf
-// is not constant or there are too many).
+// iteLeaves returns an over-approximation of the set of values a term can take
+// when it is built from constants, ite, linear combinations and div/mod by
+// constants of such terms (nil,false if it is not of that shape or the set is
+// larger than max).
 func iteLeaves(t *term.Term, max int) ([]*big.Int, bool) {
-	seen := map[string]bool{}
-	var out []*big.Int
-	var rec func(x *term.Term) bool
-	visited := map[int]bool{}
-	rec = func(x *term.Term) bool {
-		if visited[x.ID] {
-			return true
+	memo := map[int][]*big.Int{}
+	var rec func(x *term.Term) ([]*big.Int, bool)
+	uniq := func(vs []*big.Int) []*big.Int {
+		seen := map[string]bool{}
+		var out []*big.Int
+		for _, v := range vs {
+			if !seen[v.String()] {
+				seen[v.String()] = true
+				out = append(out, v)
+			}
 		}
-		visited[x.ID] = true
+		return out
+	}
+	rec = func(x *term.Term) ([]*big.Int, bool) {
+		if r, ok := memo[x.ID]; ok {
+			return r, r != nil
+		}
+		var out []*big.Int
+		ok := false
 		switch x.Op {
 		case term.OConst:
-			if !seen[x.C.String()] {
-				seen[x.C.String()] = true
-				out = append(out, x.C)
-			}
-			return len(out) <= max
+			out, ok = []*big.Int{x.C}, true
 		case term.OIte:
-			return rec(x.Args[1]) && rec(x.Args[2])
+			a, oka := rec(x.Args[1])
+			b, okb := rec(x.Args[2])
+			if oka && okb {
+				out, ok = uniq(append(append([]*big.Int{}, a...), b...)), true
+			}
+		case term.OLin:
+			cur := []*big.Int{new(big.Int).Set(x.C)}
+			ok = true
+			for i, a := range x.Args {
+				vs, oka := rec(a)
+				if !oka || len(cur)*len(vs) > 4*max {
+					ok = false
+					break
+				}
+				var nxt []*big.Int
+				for _, c := range cur {
+					for _, v := range vs {
+						nxt = append(nxt, new(big.Int).Add(c, new(big.Int).Mul(v, x.Coef[i])))
+					}
+				}
+				cur = uniq(nxt)
+			}
+			out = cur
+		case term.OMod, term.ODiv:
+			if x.Args[1].IsConst() && x.Args[1].C.Sign() > 0 {
+				vs, oka := rec(x.Args[0])
+				if oka {
+					ok = true
+					for _, v := range vs {
+						q, m := new(big.Int).DivMod(v, x.Args[1].C, new(big.Int))
+						if x.Op == term.OMod {
+							out = append(out, m)
+						} else {
+							out = append(out, q)
+						}
+					}
+					out = uniq(out)
+				}
+			}
 		}
-		return false
+		if ok && len(out) > max {
+			ok = false
+		}
+		if !ok {
+			memo[x.ID] = nil
+			return nil, false
+		}
+		memo[x.ID] = out
+		return out, true
 	}
-	if !rec(t) {
-		return nil, false
-	}
-	return out, true
+	return rec(t)
 }
 
 // resolveSem eliminates from t every ite whose condition is decided by the
